@@ -90,11 +90,19 @@ def rem(a, b, /):
             rem_result = a._cohdl_rem_(b)
 
             if rem_result is NotImplemented:
-                return b._cohdl_rrem_(a)
+                reflected_result = b._cohdl_rrem_(a)
+                assert (
+                    reflected_result is not NotImplemented
+                ), "unsupported operand types for cohdl.op.rem"
+                return reflected_result
             else:
                 return rem_result
         else:
-            return b._cohdl_rrem_(a)
+            result = b._cohdl_rrem_(a)
+            assert (
+                result is not NotImplemented
+            ), "unsupported operand types for cohdl.op.rem"
+            return result
 
 
 def truediv(a, b, /):
@@ -120,11 +128,19 @@ def truncdiv(a, b, /):
             rem_result = a._cohdl_truncdiv_(b)
 
             if rem_result is NotImplemented:
-                return b._cohdl_rtruncdiv_(a)
+                reflected_result = b._cohdl_rtruncdiv_(a)
+                assert (
+                    reflected_result is not NotImplemented
+                ), "unsupported operand types for cohdl.op.truncdiv"
+                return reflected_result
             else:
                 return rem_result
         else:
-            return b._cohdl_rtruncdiv_(a)
+            result = b._cohdl_rtruncdiv_(a)
+            assert (
+                result is not NotImplemented
+            ), "unsupported operand types for cohdl.op.truncdiv"
+            return result
 
 
 def mul(a, b, /):
